@@ -66,9 +66,9 @@ func newStdSvc(v stdVariant) (*stdSvc, error) {
 			{Dests: []string{"static-tcp.test"}, Protocol: "tcp", NextHop: "hop-a.test:5070"},
 			{Dests: []string{"static-tls.test"}, Protocol: "tls", NextHop: ip(20) + ":5070"},
 			{Dests: []string{"static-noport.test"}, Protocol: "udp", NextHop: "hop-b.test"},
-			// (a wildcard that is not the first dest of its route item)
-			{Dests: []string{"plain-w.test", "*.wudp.test"}, Protocol: "udp", NextHop: ip(24) + ":5070"},
-			{Dests: []string{"*.wtcp.test"}, Protocol: "tcp", NextHop: ip(24) + ":5070"},
+			// (route items with several dests: wildcards in first, middle and last position, literals between them)
+			{Dests: []string{"plain-w.test", "*.wudp.test", "*.wmid.test", "tail-lit.test", "*.wlast.test"}, Protocol: "udp", NextHop: ip(24) + ":5070"},
+			{Dests: []string{"*.wtcp.test", "*.wtcp2.test"}, Protocol: "tcp", NextHop: ip(24) + ":5070"},
 			{Dests: []string{"*.wtls.test"}, Protocol: "TLS", NextHop: ip(24) + ":5070"},
 			// a literal listed after a wildcard that covers it: the literal must still win
 			{Dests: []string{"lit.wudp.test"}, Protocol: "udp", NextHop: ip(22) + ":5070"},
